@@ -170,6 +170,18 @@ def _bind(target, value, env):
         env[target.id] = value
     elif isinstance(target, (ast.Tuple, ast.List)):
         vals = list(value)
+        star = [i for i, t in enumerate(target.elts) if isinstance(t, ast.Starred)]
+        if star:
+            i = star[0]
+            after = len(target.elts) - i - 1
+            if len(vals) < len(target.elts) - 1:
+                raise NotAString("unpack arity")
+            for t, v in zip(target.elts[:i], vals[:i]):
+                _bind(t, v, env)
+            _bind(target.elts[i].value, vals[i:len(vals) - after], env)
+            for t, v in zip(target.elts[i + 1:], vals[len(vals) - after:]):
+                _bind(t, v, env)
+            return
         if len(vals) != len(target.elts):
             raise NotAString("unpack arity")
         for t, v in zip(target.elts, vals):
